@@ -854,6 +854,117 @@ def check_mutation_history(ck, case, st, lon, lat, table, rule, default_rule, in
         ck.fail("raises", case, dict(info0, call="mutation history"), detail="%r after %r" % (ex, done))
 
 
+PROV_SOURCES = ["face_vertices_xyz", "dataset_xyz", "face_vertices_lonlat"]
+PROV_FIRST = ["compute()", "face_areas", "total()", "compute(latlon=False)", "compute(latlon=True)", "node_lon", "node_x"]
+
+
+def build_provenance(source, R, nodes, LL, table):
+    """a fresh Grid holding the same faces but coming from another kind of source: Cartesian-only
+    (from_face_vertices(latlon=False) or a node_x/y/z-only dataset, on a sphere of radius R) or
+    lon/lat face vertices"""
+    import uxarray as ux
+    import xarray as xr
+    rows = [[i for i in r if i != FILL] for r in table]
+    w = len(table[0])
+    if source == "face_vertices_xyz":
+        fv = np.array([[[c * R for c in nodes[i]] for i in r] + [[FILL] * 3] * (w - len(r)) for r in rows], dtype=float)
+        return ux.Grid.from_face_vertices(fv, latlon=False)
+    if source == "face_vertices_lonlat":
+        fv = np.array([[list(LL[i]) for i in r] + [[FILL] * 2] * (w - len(r)) for r in rows], dtype=float)
+        return ux.Grid.from_face_vertices(fv, latlon=True)
+    xyz = np.array([[c * R for c in p] for p in nodes], dtype=float)
+    ds = xr.Dataset({"node_x": (("n_node",), xyz[:, 0]), "node_y": (("n_node",), xyz[:, 1]), "node_z": (("n_node",), xyz[:, 2]),
+                     "face_node_connectivity": (("n_face", "n_max_face_nodes"), np.array(table, dtype=np.intp),
+                                                {"_FillValue": FILL, "start_index": 0, "cf_role": "face_node_connectivity"})})
+    return ux.Grid.from_dataset(ds, source_grid_spec="Cartesian dataset")
+
+
+def check_provenance(ck, case, st, nodes, LL, table, exact, tols, convex, ref_default, default_rule, info0):
+    """every source/provenance class x every order of first access: the areas a fresh grid reports
+    must not depend on which coordinates its source stored, nor on whether node_lon / node_x were
+    derived before the first area request (default and explicit latlon)"""
+    rng = ck.rng
+    plan = case.get("prov")
+    if plan is None:
+        plan = []
+        for src in (["face_vertices_xyz", "dataset_xyz"] if rng.random() < 0.7 else [rng.choice(PROV_SOURCES)]):
+            R = rng.choice([1.0, 1.0, 6371.0, 6371229.0, 0.5]) if src != "face_vertices_lonlat" else 1.0
+            for first in rng.sample(PROV_FIRST, 3):
+                plan.append([src, R, first])
+        case["prov"] = plan
+    nf = len(table)
+    rows = [[i for i in r if i != FILL] for r in table]
+    # relative area noise of lon/lat DERIVED from Cartesian coordinates: _xyz_to_lonlat_rad snaps every node
+    # with |z| > 1 - 1e-8 (colatitude < 1.4e-4 rad, ~900 m) onto the pole and uses arcsin(z) (absolute error
+    # ~eps / colatitude); that is C04's business -- faces it touches are not judged here (infinite noise
+    # inside the snap zone)
+    polar_noise = []
+    for f in range(nf):
+        PP = [nodes[i] for i in rows[f]]
+        colat = min(math.atan2(math.hypot(q[0], q[1]), abs(q[2])) for q in PP)
+        if colat < 2.0e-4:
+            polar_noise.append(float("inf"))
+        else:
+            per = sum(vangle(PP[i], PP[(i + 1) % len(PP)]) for i in range(len(PP)))
+            polar_noise.append(8 * 2.2e-16 / colat * per / max(float(exact[f]), 1e-300))
+    for src, R, first in plan:
+        info = {"level": "grid", "provenance": src, "first_access": first, "unit_radius": bool(R == 1.0)}
+        got = {}
+        try:
+            g = build_provenance(src, R, nodes, LL, table)
+            if first == "compute()":
+                got["compute()"] = np.array(g.compute_face_areas()[0], dtype=float)
+            elif first == "face_areas":
+                got["face_areas"] = np.array(g.face_areas.values, dtype=float)
+            elif first == "total()":
+                got["total()"] = float(g.calculate_total_face_area())
+            elif first == "compute(latlon=False)":
+                got["compute(latlon=False)"] = np.array(g.compute_face_areas(latlon=False)[0], dtype=float)
+            elif first == "compute(latlon=True)":
+                got["compute(latlon=True)"] = np.array(g.compute_face_areas(default_rule[0], default_rule[1], True)[0], dtype=float)
+            elif first == "node_lon":
+                _ = g.node_lon.values, g.node_lat.values
+            else:
+                _ = g.node_x.values, g.node_y.values, g.node_z.values
+            # ... and afterwards everything again on the same object
+            got.setdefault("compute()", np.array(g.compute_face_areas()[0], dtype=float))
+            got["later compute(latlon=False)"] = np.array(g.compute_face_areas(latlon=False)[0], dtype=float)
+            got["later face_areas"] = np.array(g.face_areas.values, dtype=float)
+            got["later total()"] = float(g.calculate_total_face_area())
+        except Exception as ex:
+            ck.fail("raises", case, dict(info, call="provenance"), detail="%r after %r" % (ex, list(got)))
+            continue
+        st.count("provenance", "%s / first %s%s" % (src, first, "" if R == 1.0 else " / R != 1"))
+        for name, val in got.items():
+            if isinstance(val, float):
+                want = float(np.sum(ref_default))
+                tmax = max([t for t in tols if t is not None] or [1e-2])
+                if all(convex) and all(t is not None for t in tols) and (src == "face_vertices_lonlat" or max(polar_noise) < 1e-3) \
+                        and abs(val - want) > tmax * abs(want):
+                    ck.fail("coords_path", case, dict(info, what=name), detail="%s = %r, lon/lat topology grid: %r" % (name, val, want))
+                continue
+            if val.shape != (nf,):
+                ck.fail("coords_path", case, dict(info, what=name), detail="shape %r" % (val.shape,))
+                continue
+            for f in range(nf):
+                if not (convex[f] and tols[f] is not None and exact[f] > 0):
+                    continue
+                if src != "face_vertices_lonlat" and polar_noise[f] > 0.1 * tols[f]:
+                    continue          # not claimed here: lon/lat derived from xyz next to a pole (C04: snap zone, arcsin)
+                if abs(val[f] - ref_default[f]) > tols[f] * float(exact[f]) or relerr(val[f], exact[f]) > tols[f]:
+                    ck.fail("coords_path", case, dict(info, what=name),
+                            detail="face %d: %s = %r, lon/lat topology grid: %r, exact %s"
+                            % (f, name, val[f], ref_default[f], mp.nstr(exact[f], 15)))
+                    break
+                PP = [nodes[i] for i in rows[f]]
+                d = abs(val[f] - ref_default[f]) / float(exact[f])
+                if d > max(TIGHT, noise_floor(PP, exact[f]), 0.0 if src == "face_vertices_lonlat" else polar_noise[f]):
+                    ck.corr_failures.append({"what": "provenance changes an area beyond float noise (model: C05_coords_grid)",
+                                             "case": case, "provenance": [src, R, first], "what2": name, "face": f,
+                                             "got": float(val[f]), "ref": float(ref_default[f])})
+                    break
+
+
 def check_grid(ck, case, st, default_rule, model_jobs=None):
     rng = ck.rng
     nodes = [tuple(p) for p in case["nodes"]]
@@ -928,6 +1039,8 @@ def check_grid(ck, case, st, default_rule, model_jobs=None):
         ck.fail("raises", case, dict(info0, call="compute_face_areas"), detail=repr(ex))
         return
     check_mutation_history(ck, case, st, lon, lat, table, rule, default_rule, info0)
+    if nf <= 200:
+        check_provenance(ck, case, st, nodes, LL, table, exact, tols, convex, ref_default, default_rule, info0)
     try:
         a_xyz = np.array(g.compute_face_areas(rule[0], rule[1], False)[0], dtype=float)
         xyz = list(zip(g.node_x.values.tolist(), g.node_y.values.tolist(), g.node_z.values.tolist()))
@@ -1204,7 +1317,7 @@ def main(ck):
                       "corner, both inputs) + km-scale faces down to 1e-4 degrees + latitude-longitude meshes with an "
                       "equator-centred row (start corner shifted 0..3, not rotated) "
                       "and closed tilings refined to the class limit through Grid.compute_face_areas/face_areas/"
-                      "calculate_total_face_area with random call histories, incl. histories that edit every returned array in place and replace node coordinates through the setters; non-trivial = every case (>=3 corners, "
+                      "calculate_total_face_area, also rebuilt as Cartesian-only sources (from_face_vertices(latlon=False), node_x/y/z-only dataset, unit and non-unit radius) with every kind of first access, with random call histories, incl. histories that edit every returned array in place and replace node coordinates through the setters; non-trivial = every case (>=3 corners, "
                       "positive area); distinct = distinct corner coordinates")
     face_jobs, grid_jobs = [], []
     for idx, c in enumerate(cases):
@@ -1291,7 +1404,10 @@ def main(ck):
                    "numpy/numba float64 arithmetic of the implementation (deviation bounded by the stated tolerances)"]
     ck.assumptions += ["faces are convex with 3..8 corners and edges < 90 degrees (the property's quantifier); non-convex "
                        "faces of generated tilings are only checked for sign, cache and correspondence",
-                       "sources that supply their own areas (MPAS areaCell) are C01's business (DESIGN appendix E)"]
+                       "sources that supply their own areas (MPAS areaCell) are C01's business (DESIGN appendix E)",
+                       "Cartesian-only sources: faces with a corner within 2e-4 rad of a pole (the snap zone of _xyz_to_lonlat_rad) and "
+                       "sub-km faces so close to a pole that arcsin(z) noise reaches a tenth of the class tolerance are not judged in "
+                       "the provenance comparison (C04 owns the conversion)"]
 
 
 def replay(ck, rp):
